@@ -803,6 +803,20 @@ def _str_eq(I, st, a, b):
         return [(st, ka[1] == kb[1])]
     if ka == kb and ka[0] == "sym":
         return [(st, True)]
+    for x, k in ((a, kb), (b, ka)):
+        # a text pieced together that is longer than the constant it is compared with differs from it
+        xv = deref(I, st, x)
+        if k[0] == "const" and isinstance(xv, Seq) and xv.chunks is not None and isinstance(k[1], (str, bytes)):
+            mn = 0
+            for c in xv.chunks:
+                if c[0] == "lit":
+                    mn += len(c[1])
+                elif c[0] == "arg":
+                    iv = deref(I, st, c[1])
+                    if isinstance(iv, Seq) and isinstance(iv.length, Aff):
+                        mn += max(0, st.range_of(iv.length)[0])
+            if mn > len(k[1]):
+                return [(st, False)]
     if ka[0] == "sym" and kb[0] == "const" or ka[0] == "const" and kb[0] == "sym":
         sym = ka[1] if ka[0] == "sym" else kb[1]
         c = kb[1] if ka[0] == "sym" else ka[1]
@@ -837,6 +851,15 @@ def m_eq(I, st, info, args, depth):
     a, b = deref(I, st, args[0]), deref(I, st, args[1])
     if isinstance(a, Aff) and isinstance(b, Aff):
         return ret(st, I.binop(st, "Ne" if neg else "Eq", a, b))
+    if all(isinstance(x, Struct) and x.adt == "core::option::Option" and x.variant in ("Some", "None") for x in (a, b)):
+        # Option<text> == Option<text>: the same variant, and equal contents
+        if a.variant != b.variant:
+            return ret(st, BoolV(neg))
+        if a.variant == "None":
+            return ret(st, BoolV(not neg))
+        pa, pb = deref(I, st, a.fields["0"]), deref(I, st, b.fields["0"])
+        if all(isinstance(x, StrV) or isinstance(x, Seq) and x.kind == "str" for x in (pa, pb)):
+            return [(s2, "return", BoolV(r != neg)) for s2, r in str_eq(I, st, a.fields["0"], b.fields["0"])]
     return ret(st, SymBool(("ne" if neg else "eq", repr(a), repr(b))))
 
 
@@ -1245,7 +1268,7 @@ def m_index(I, st, info, args, depth):
         return None
     base = deref(I, st, args[0])
     # serde_json Value indexing never panics on the immutable path (returns Null)
-    if "serde_json::value::Value" in nm and "Index<" in nm:
+    if re.search(r"for serde_json::value::Value>::index(_mut)?$|^<&?(mut )?serde_json::value::Value as core::ops::index::Index", nm):
         if "IndexMut" in info["tdef"]:
             return [(st, "panic", ("Value::index_mut", info["fn"], info["ln"]))] if False else ret(st, Sym("json_member"))
         k = str_key(I, st, args[1])
@@ -1255,7 +1278,8 @@ def m_index(I, st, info, args, depth):
             st.symfields[key] = json_sym("%s[%s]" % (bn, k[1]))
         c = st.new_cell(st.symfields[key])
         return ret(st, Ptr(c, ()))
-    if "HashMap<" in nm:
+    if "HashMap<" in nm or "serde_json::map::Map<" in nm:
+        # (serde_json::Map, unlike serde_json::Value, panics when indexed with a key it does not hold)
         mname = repr(I.resolve(st, args[0]))
         k = str_key(I, st, args[1])
         known = st.facts.get(("hashcontains", mname, k))
@@ -1485,7 +1509,7 @@ def m_split(I, st, info, args, depth):
     return ret(st, Struct("str::Split", None, {"src": src, "sep": args[1] if len(args) > 1 else UNIT, "pos": Aff(0), "how": StrV(how)}))
 
 
-@model(r"^core::iter::traits::iterator::Iterator::collect$")
+@model(r"^core::iter::traits::iterator::Iterator::collect$|^core::iter::traits::collect::FromIterator::from_iter$")
 def m_collect(I, st, info, args, depth):
     it = deref(I, st, args[0])
     if isinstance(it, Struct) and it.adt == "str::Split":
@@ -1883,6 +1907,15 @@ def m_json_get(I, st, info, args, depth):
         out.append((s2, "return", none()))
     out.append((st, "return", some(Ptr(st.new_cell(mem), ()))))
     return out
+
+
+@model(r"^core::str::<impl str>::(contains|starts_with|ends_with|eq_ignore_ascii_case|is_ascii|is_char_boundary)$|^core::slice::<impl \[T\]>::(starts_with|ends_with|is_ascii)$")
+def m_text_predicate(I, st, info, args, depth):
+    """a yes / no question about text whose answer the analysis does not compute: both answers are followed, each recorded as a condition"""
+    if info["def"] in I.facts.bodies:
+        return None
+    op = info["tdef"].split("::")[-1]
+    return ret(st, SymBool((op,) + tuple(describe(I, st, a) for a in args)))
 
 
 @model(SAFE_STD)
